@@ -94,6 +94,11 @@ PROP = [  # (subject fragment, property, also)
  ("leaves are not merged (and entries not borrowed) when the result would not fit", "C17", "C16"),
  ("DROP COLUMN is refused when the rest of a multi-column UNIQUE constraint", "C33", "C10"),
  ("index-backed IN (subquery) shortcut checks the SELECT privilege", "C26", ""),
+ ("columnar MIN/MAX compares every comparable type", "C03", ""),
+ ("columnar SUM/AVG accept REAL values", "C03", ""),
+ ("SELECT *, COUNT(*) is left to row execution", "C03", ""),
+ ("integer-literal predicate fast path compares DOUBLE/NUMERIC/FLOAT/REAL columns as f64", "C03", ""),
+ ("row-path SUM/AVG accumulate FLOAT/REAL/DOUBLE values in f64", "C03", ""),
 ]
 def main():
     root = sys.argv[1] if len(sys.argv) > 1 else "/verif"
